@@ -52,7 +52,10 @@ def run(ck):
     from rules.c30 import live_iteration_rules
     live_iteration_rules(ck, "R5", [("miasm/core/asmblock.py", "AsmCFG")])
     m = ck.repo.mod(REL)
-    meths = m.methods("AsmCFG")
+    from sa.prenorm import inline_helpers
+    raw = m.methods("AsmCFG")
+    # private helpers of the class are part of the method that calls them (an extracted `_add_pending` is still add_block filing a pending)
+    meths = dict((k_, inline_helpers(v_, raw, accept=lambda n_: n_.startswith("_") and not n_.startswith("__"))) for k_, v_ in raw.items())
     ck.rule("R1", "add_edge/del_edge update constraint table, graph edge and bto together", floor=5)
     ck.rule("R2", "block removal purges its pendings; add_block resolves waiters and files pendings/edges", floor=5)
     ck.rule("R3", "rebuild_edges resets pendings and derives edges only from bto", floor=4)
@@ -169,6 +172,15 @@ def run(ck):
                       any(isinstance(c, ast.Call) and dotted(c.func) == "self.del_edge" for c in walk_local(t)) for t in walk_local(lp))
         by_diff = any(isinstance(b, ast.BinOp) and isinstance(b.op, ast.Sub) and isinstance(b.right, ast.Name) and b.right.id in collected
                       for b in walk_local(lp.iter))
+        # or the loop walks a list already filtered by `... not in <collected>`
+        from sa.astutil import Resolver as _Rs
+        it_ = lp.iter
+        if isinstance(it_, ast.Name) and _Rs(fn).unique_def(it_.id) is not None:
+            it_ = _Rs(fn).unique_def(it_.id)
+        by_comp = isinstance(it_, (ast.ListComp, ast.GeneratorExp, ast.SetComp)) and any(
+            isinstance(c_, ast.Compare) and isinstance(c_.ops[0], ast.NotIn) and isinstance(c_.comparators[0], ast.Name) and c_.comparators[0].id in collected
+            for g_ in it_.generators for c_ in g_.ifs)
+        by_test = by_test or by_comp
         if by_test or by_diff:
             ok = True
     ck.ob("R3", "rebuild_edges:remove-stale", ok, m.where(fn), "edges no longer backed by a bto constraint are not removed")
